@@ -81,15 +81,42 @@ static bool c19_deep_eq(const struct c19_deep *x, const struct c19_deep *y, int 
     return e;
 }
 
+/* -DSYMCFG: the slots beyond nslots and the automations beyond per_slot do not belong to the manager: never written,
+ * never the address of a message */
+static bool c19_beyond_untouched(const struct c19_deep *x, const struct c19_deep *y)
+{
+    bool e = true;
+    for(int i = 0; i < NS; i++) {
+        if(i >= CN)
+            e = e & (x->s[i].active == y->s[i].active) & (x->s[i].used == y->s[i].used)
+                  & (x->s[i].learning == y->s[i].learning) & (x->s[i].cc == y->s[i].cc) & (x->s[i].nrpn == y->s[i].nrpn)
+                  & (x->s[i].automations == y->s[i].automations) & (x->s[i].cur == y->s[i].cur);
+        for(int j = 0; j < PS; j++) {
+            if(i < CN && j < CPS) continue;
+            e = e & (REC.per[i][j] == 0);
+            e = e & (x->a[i][j].used == y->a[i][j].used) & (x->a[i][j].active == y->a[i][j].active)
+                  & (x->a[i][j].rel == y->a[i][j].rel) & (x->a[i][j].type == y->a[i][j].type)
+                  & (x->a[i][j].base == y->a[i][j].base) & (x->a[i][j].mn == y->a[i][j].mn)
+                  & (x->a[i][j].mx == y->a[i][j].mx) & (x->a[i][j].step == y->a[i][j].step)
+                  & (x->a[i][j].gain == y->a[i][j].gain) & (x->a[i][j].off == y->a[i][j].off)
+                  & (x->a[i][j].scale == y->a[i][j].scale) & (x->a[i][j].ctype == y->a[i][j].ctype)
+                  & (x->a[i][j].npoints == y->a[i][j].npoints) & (x->a[i][j].upoints == y->a[i][j].upoints)
+                  & (x->a[i][j].cps == y->a[i][j].cps);
+            for(int c = 0; c < NCP; c++) e = e & (x->a[i][j].cp[c] == y->a[i][j].cp[c]);
+        }
+    }
+    return e;
+}
+
 /* postcondition of setSlot(slot_id, value) over (pre, post, recorder); the recorder was empty before the call */
 static void c19_check_setSlot_contract(const struct c19_deep *pre, const struct c19_deep *post, int slot_id, uint32_t value_bits)
 {
-    bool in = slot_id >= 0 && slot_id < NS;
+    bool in = slot_id >= 0 && slot_id < CN;
     V_ASSERT(c19_deep_eq(pre, post, in ? slot_id : -1), "C19 setSlot contract: nothing in the manager changes but slots[i].current_state");
     unsigned total = 0;
     for(int i = 0; i < NS; i++)
         for(int j = 0; j < PS; j++) {
-            unsigned want = (i == slot_id && pre->a[i][j].used && c19_known_type(pre->a[i][j].type)) ? 1 : 0;
+            unsigned want = (in && i == slot_id && j < CPS && pre->a[i][j].used && c19_known_type(pre->a[i][j].type)) ? 1 : 0;
             V_ASSERT(REC.per[i][j] == want, "C19 setSlot contract: exactly one message per used parameter of slot i, none for any other");
             total += want;
         }
